@@ -110,6 +110,7 @@ type ExploreSpec struct {
 	Cache    bool
 	CrossChk *explore.Budget // budget at which cache-off is compared with cache-on (variant 1)
 	MaxExecs int64
+	Shallow  []int // variants that skip the last (deepest) budget
 }
 
 // ExploreJob wraps a scenario exploration as a Job.
@@ -121,7 +122,13 @@ func ExploreJob(prop string, spec ExploreSpec, cost int) Job {
 		distinct := map[string]bool{}
 		seenSig := map[string]bool{}
 		for _, v := range spec.Variants {
-			for _, b := range spec.Budgets {
+			budgets := spec.Budgets
+			for _, sv := range spec.Shallow {
+				if sv == v && len(budgets) > 1 {
+					budgets = budgets[:len(budgets)-1]
+				}
+			}
+			for _, b := range budgets {
 				if jc.Expired() {
 					r.Exhaustive = false
 					r.CapsHit = append(r.CapsHit, "deadline before "+fmt.Sprintf("V%d %s", v, b))
